@@ -172,7 +172,7 @@ class Check:
 
     def build_modelrun(self):
         exe = os.path.join(VERIF, 'extract', 'modelrun')
-        srcs = [os.path.join(VERIF, 'extract', 'Extract.v'), os.path.join(VERIF, 'extract', 'driver.ml')]
+        srcs = [os.path.join(VERIF, 'extract', x) for x in ('models.d', 'driver_head.ml', 'driver_tail.ml', 'build.sh')]
         key = tree_hash([os.path.join(COQ, 'theories'), os.path.join(COQ, 'gen')] + srcs)
         stamp = os.path.join(VERIF, 'extract', '.stamp')
         if os.path.exists(exe) and os.path.exists(stamp) and open(stamp).read() == key:
